@@ -2,6 +2,26 @@
 over the shards; budgets are case counts, never time."""
 
 PROPS = {
+    "C04": {
+        "pkg": "c04", "needs_gw": True, "level": "exploration",
+        "technique": "property-based testing (rapid): hostile strings in every client-controlled path-like parameter x spelling; oracle = snapshot of everything outside the named bucket's storage + canary scan of the answer and of the named bucket's files",
+        "level_text": ("Generated-input search: for every path-like parameter a client controls (object key, bucket segment, copy source bucket / key / "
+                       "version, versionId, uploadId, partNumber, prefix, markers, continuation token, delimiter, keys and version ids of a batch delete, "
+                       "admin bucket / owner / access) a hostile string ('.'/'..' segments at any depth up to the sandbox top, absolute paths, NUL, "
+                       "backslash, overlong and full-width dots, the bookkeeping and versioning directory layouts, sibling buckets and canary files) "
+                       "is substituted into a valid request of the catalogue, spelled raw in the request line, percent-encoded (upper / lower / "
+                       "mixed) or double-encoded, signed for an account authorised for bucket A only (or root). Oracle: the byte-level snapshot of the "
+                       "whole sandbox except bucket A's own storage is unchanged, the answer contains no canary from outside A, and no outside "
+                       "canary has been pulled into A's files. Gateways and the test process run as an unprivileged uid."),
+        "level_note": "escape depth is bounded by the sandbox (11 levels); root naming another bucket by a clean name is authorised for that bucket. Exploration only.",
+        "rule": ("case = (config, op, key, caller, parameter, hostile string, spelling, engine). Non-trivial: the hostile value, joined lexically to the directory "
+                 "the parameter is relative to, designates a location outside bucket A's storage; distinct by the full tuple."),
+        "assumptions": ["in-process engine replicates runGateway wiring; TestC04P uses the shipped binary"],
+        "jobs": [
+            {"run": "TestC04A", "quick": 14000, "thorough": 500000, "shards_quick": 12, "shards_thorough": 16},
+            {"run": "TestC04P", "quick": 1600, "thorough": 60000, "shards_quick": 4, "shards_thorough": 16},
+        ],
+    },
     "C20": {
         "pkg": "c20", "needs_gw": True, "level": "exploration",
         "technique": "property-based testing (rapid) + exhaustive single-mutation sweep + native coverage-guided fuzzing: catalogue requests with fields replaced by boundary / malformed / oversized / type-confused values; oracle = no panic (attributed by first own frame), bounded time and allocation, well-formed answer, gateway keeps serving",
